@@ -123,6 +123,11 @@ func c08Bads() []CfgLit {
 		mut(func(l *CfgLit) { l.RequestHeaders = []string{"*", "X-D", "bad name"} }),
 		mut(func(l *CfgLit) { l.ResponseHeaders = []string{"Set-Cookie"} }),
 		mut(func(l *CfgLit) { l.ResponseHeaders = []string{"*"} }),
+		// names that only a Unicode-aware case conversion would turn into acceptable ASCII ones
+		mut(func(l *CfgLit) { l.Methods = []string{"po\u017ft"} }),
+		mut(func(l *CfgLit) { l.Methods = []string{"QUERY", "opt\u0131ons"} }),
+		mut(func(l *CfgLit) { l.RequestHeaders = []string{"x-\u212a"} }),
+		mut(func(l *CfgLit) { l.ResponseHeaders = []string{"x-u", "x-\u017f"} }),
 		mut(func(l *CfgLit) { l.MaxAge = -2 }),
 		mut(func(l *CfgLit) { l.MaxAge = 86401 }),
 		mut(func(l *CfgLit) { l.Status = 199 }),
